@@ -121,15 +121,13 @@ def dateSubsetMissing (y m d w : Bool) : Bool :=
   [(false, false, true, true), (false, true, false, true), (true, false, false, true),
    (true, false, true, false), (true, false, true, true), (true, true, false, true)].contains (y, m, d, w)
 
-/-- the date cells that are right: present, and not French non-natural `month` (which is `[m]`, the minutes) -/
-def dateCellGood (lang : Lang) (o : DOpts) : Bool :=
-  !dateSubsetMissing o.year o.month o.date o.day &&
-  !(lang == .fr && !o.nat && !o.year && o.month && !o.date && !o.day)
+/-- the date cells that are right: all those that are present (same in both languages and styles) -/
+def dateCellGood (_lang : Lang) (o : DOpts) : Bool :=
+  !dateSubsetMissing o.year o.month o.date o.day
 
-/-- the time cells that are right: not `hour:second` (absent), not French natural `minute` (undefined `[i]`) -/
-def timeCellGood (lang : Lang) (o : DOpts) : Bool :=
-  !(o.hour && !o.minute && o.second) &&
-  !(lang == .fr && o.nat && !o.hour && o.minute && !o.second)
+/-- the time cells that are right: all but `hour:second`, which is absent -/
+def timeCellGood (_lang : Lang) (o : DOpts) : Bool :=
+  !(o.hour && !o.minute && o.second)
 
 theorem fields_exact_refuted : ¬ fields_exact := by
   intro h
@@ -197,11 +195,6 @@ def clock12 : Prop :=
   ∀ (lang : Lang) (nat : Bool) (kv : Str × Str), kv ∈ tableOf lang nat → mentionsHour kv.2 = true →
     ∀ dt : DateTime, dt.hour < 24 → clockOK lang dt kv.2 = true
 
-/-- where the clock is wrong: English cells print `hour % 12` (0 instead of 12), except the non-natural
-    `hour:minute:second` cell which prints the 24-hour value next to a.m./p.m. -/
-def clockBad (lang : Lang) (nat : Bool) (key : Str) (h : Nat) : Bool :=
-  lang == .en && (if !nat && key == kHMS then (h == 0 || 13 ≤ h) else h % 12 == 0)
-
 def canon (h : Nat) : DateTime := { year := 2015, month := 7, day := 23, hour := h, minute := 25, second := 45 }
 
 theorem value_hour_congr (r : DateRules) (dt dt' : DateTime) (hh : dt.hour = dt'.hour) (p : Ph)
@@ -227,25 +220,62 @@ theorem clockOK_congr (lang : Lang) (dt dt' : DateTime) (hh : dt.hour = dt'.hour
 
 theorem clock12_tbl :
     ∀ (lang : Lang) (nat : Bool), ∀ kv ∈ tableOf lang nat, mentionsHour kv.2 = true →
-      ∀ h : Fin 24, clockOK lang (canon h.val) kv.2 = !clockBad lang nat kv.1 h.val := by
+      ∀ h : Fin 24, clockOK lang (canon h.val) kv.2 = true := by
   decide +kernel
 
-theorem clock12_refuted : ¬ clock12 := by
-  intro h
-  have := h .en true (kHour, ['a','t',' ','[','h',']',' ','[','A',']']) (by decide) (by decide) (canon 12) (by decide)
-  revert this; decide +kernel
-
-/-- exact characterisation over all 24 hours and all cells displaying the hour -/
-theorem clock12_partial :
-    ∀ (lang : Lang) (nat : Bool) (kv : Str × Str), kv ∈ tableOf lang nat → mentionsHour kv.2 = true →
-      ∀ dt : DateTime, dt.hour < 24 → clockOK lang dt kv.2 = !clockBad lang nat kv.1 dt.hour := by
+/-- all 24 hours, every cell of the four generated tables that displays the hour, every instant -/
+theorem clock12_holds : clock12 := by
   intro lang nat kv hkv hm dt hh
   rw [clockOK_congr lang dt (canon dt.hour) rfl]
   exact clock12_tbl lang nat kv hkv hm ⟨dt.hour, hh⟩
 
--- non-vacuity: cells displaying the hour exist in every table, and the French clock is never bad
+-- non-vacuity: cells displaying the hour exist in every table; 12:30 is "12", "p.m." (tests)
 example : ∀ lang nat, (tableOf lang nat).any (fun kv => mentionsHour kv.2) = true := by decide +kernel
-example : ∀ nat key h, clockBad .fr nat key h = false := by intro nat key h; rfl
+example : hourShown rulesEn (canon 12) ['a','t',' ','[','h',']',':','[','m','0',']',' ','[','A',']'] =
+    ([some ['1','2']], [some pm]) := by decide +kernel
+example : clock12h 0 = 12 ∧ clock12h 12 = 12 ∧ clock12h 13 = 1 ∧ clock12h 23 = 11 := by decide
+
+/-! ## C17.c'  the fields appear in the language's conventional order -/
+
+/-- position of a placeholder in the conventional order of a language: English weekday, month, day of month, year;
+    French weekday, day of month, month, year; then hour, minute, second and (last) the meridiem -/
+def rankOf : Lang → Ph → Nat
+  | _, .l => 0
+  | .en, .F | .en, .M | .en, .M0 => 1
+  | .en, .d | .en, .d0 => 2
+  | .fr, .d | .fr, .d0 => 1
+  | .fr, .F | .fr, .M | .fr, .M0 => 2
+  | _, .Y => 3
+  | _, .h | _, .H | _, .H0 => 4
+  | _, .m | _, .m0 => 5
+  | _, .s | _, .s0 => 6
+  | _, .A => 7
+
+def strictlyIncreasing : List Nat → Bool
+  | a :: b :: r => decide (a < b) && strictlyIncreasing (b :: r)
+  | _ => true
+
+/-- the placeholders of a format follow the conventional order (in particular no field is displayed twice) -/
+def inOrder (lang : Lang) (fmt : Str) : Bool := strictlyIncreasing ((phsOf fmt).map (rankOf lang))
+
+/-- **C17.c'** numeric (and named) fields appear in the language's conventional order, in every cell of the four
+    tables: a numeric date `a/b` is month/day in English and day/month in French, the year comes last, a time is
+    hour, minute, second -/
+def conventional_order : Prop :=
+  ∀ (lang : Lang) (nat : Bool) (kv : Str × Str), kv ∈ tableOf lang nat → inOrder lang kv.2 = true
+
+theorem numeric_order_tbl : ∀ (lang : Lang) (nat : Bool), ∀ kv ∈ tableOf lang nat, inOrder lang kv.2 = true := by
+  decide +kernel
+
+theorem conventional_order_holds : conventional_order := numeric_order_tbl
+
+-- non-vacuity / tests: the convention distinguishes the two languages, and rejects a swapped or repeated field
+example : inOrder .fr "[l] [d]/[M]".toList = true ∧ inOrder .fr "[l] [M]/[d]".toList = false := by decide +kernel
+example : inOrder .en "[l] [M]/[d]".toList = true ∧ inOrder .en "[l] [d]/[M]".toList = false := by decide +kernel
+example : inOrder .en "[m0]:[H0]:[s0] [A]".toList = false ∧ inOrder .fr "[Y]/[M]".toList = false ∧
+    inOrder .en "[d] [d]".toList = false := by decide +kernel
+example : (tableOf .fr false).any (fun kv => (phsOf kv.2).contains .d && (phsOf kv.2).contains .M) = true ∧
+    (tableOf .en false).any (fun kv => (phsOf kv.2).contains .d && (phsOf kv.2).contains .M) = true := by decide +kernel
 
 /-! ## C17.d  noon / midnight wording iff 12:00:00 / 00:00:00 with the three time fields in natural style -/
 
@@ -473,11 +503,9 @@ def dateFormat_total : Prop :=
 /-- the date part returns: relative time, or a subset that has a format -/
 def dateGood (o : DOpts) (hasRef : Bool) : Bool := hasRef || !dateSubsetMissing o.year o.month o.date o.day
 
-/-- the time part returns: not `hour:second`; not French natural `minute` alone; not noon / midnight wording with
-    `det:False` -/
-def timeGood (lang : Lang) (dt : DateTime) (o : DOpts) : Bool :=
+/-- the time part returns: not `hour:second`; not noon / midnight wording with `det:False` -/
+def timeGood (_lang : Lang) (dt : DateTime) (o : DOpts) : Bool :=
   !(o.hour && !o.minute && o.second) &&
-  !(lang == .fr && o.nat && !o.hour && o.minute && !o.second) &&
   !(!o.det && o.nat && o.hour && o.minute && o.second && dt.minute == 0 && dt.second == 0 && (dt.hour == 0 || dt.hour == 12))
 
 theorem dateFormat_total_refuted : ¬ dateFormat_total := by
@@ -493,7 +521,7 @@ theorem total_date_tbl : ∀ (lang : Lang) (y m d w nat det : Bool),
 
 theorem total_time_tbl : ∀ (lang : Lang) (H Mi S nat det mz sz h0 h12 : Bool),
     cellOK (rulesOf lang) nat det (timeKeyC nat H Mi S mz sz h0 h12) =
-      (!(H && !Mi && S) && !(lang == .fr && nat && !H && Mi && !S) &&
+      (!(H && !Mi && S) &&
        !(!det && nat && H && Mi && S && mz && sz && (h0 || h12))) := by
   decide +kernel
 
@@ -532,7 +560,7 @@ def source_as_modelled : Prop :=
      (['d'], "str(dateObj.day)".toList),
      (['l'], "dateRule['text']['weekday'][(dateObj.weekday() + 1) % 7]".toList),
      (['A'], "dateRule['text']['meridiem'][0 if dateObj.hour < 12 else 1]".toList),
-     (['h'], "str(dateObj.hour % 12)".toList),
+     (['h'], "str(dateObj.hour % 12 or 12)".toList),
      (['H','0'], "f'{dateObj.hour:02}'".toList),
      (['H'], "str(dateObj.hour)".toList),
      (['m','0'], "f'{dateObj.minute:02}'".toList),
@@ -556,6 +584,12 @@ def source_as_modelled : Prop :=
      "return ''".toList,
      "return res".toList,
      "sign = '-' if diffDays < 0 else '+'".toList] ∧
+  pyConditions =
+    ["dOpts['nat']".toList, "len(fields) == 0".toList, "'det' in dOpts and (not dOpts['det'])".toList,
+     "m[1] is None".toList, "dateObj.hour < 12".toList, "isinstance(dOpts['rtime'], datetime.datetime)".toList,
+     "str(diffDays) in relativeDate".toList, "diffDays < 0".toList, "dOpts['nat']".toList,
+     "timeFields == 'hour:minute:second'".toList, "m == 0 and s == 0".toList, "h == 0".toList, "h == 12".toList,
+     "s == 0".toList, "timeFields == 'hour:minute'".toList, "m == 0".toList] ∧
   pyAllowedKeys = allowedKeys ∧
   pyDefaults = [(kYear, DOpts.default.year), (kMonth, DOpts.default.month), (kDate, DOpts.default.date),
                 (kDay, DOpts.default.day), (kHour, DOpts.default.hour), (kMinute, DOpts.default.minute),
